@@ -49,7 +49,12 @@ def make_msg(I, kind, k="", mode="header", nin=None):
     elif kind == "gapfill":
         extra = {123: "Y", 36: I.int(f"new{k}", 1, 130)}
     elif kind == "logon":
-        extra = {98: 0, 108: 30}
+        # the Logon body may lack EncryptMethod / HeartBtInt (then no reply can be built)
+        extra = {}
+        if I.bool(f"logon_has98{k}"):
+            extra[98] = 0
+        if I.bool(f"logon_has108{k}"):
+            extra[108] = 30
     m = inbound(TYPE_OF[kind], seq if has34 else None, extra, sender if has49 else None,
                 target if has56 else None, begin)
     hdr_ok = begin == "FIX.4.4" and has49 and has56 and sender == "T" and target == "S" and has34
@@ -124,6 +129,11 @@ def h_step(I, states, kinds, mode, followup=False):
             I.goal("non-logon-first")
         else:
             I.check(after["nin"] in (before["nin"], before["nin"] + 1), "Logon moved the inbound counter by more than one")
+            if state == CS.NETWORK_CONN_ESTABLISHED and c._connection_state in (CS.ACTIVE, CS.RESENDREQ_AWAITING, CS.RECV_SEQNUM_TOO_HIGH):
+                # acceptor side: the exchange is complete only once our own Logon went out
+                I.check(any(frame_fields(f).get("35") == b"A" for f in frames),
+                        "acceptor is logged on although it never sent its Logon reply")
+                I.goal("logon-completed")
     else:
         I.goal("logged-on")  # in-sequence behaviour is C04's subject; only the gating is checked here
         if delivered:
